@@ -4,7 +4,7 @@ CONSTANTS
   Nodes = {"n0", "n1"}
   Edges = {"e0"}
   Types = {"tA", "tB"}
-  Atoms = {"p0", "p1"}
+  Atoms = {"p0", "p3"}
   RankW <- MC_RankW
   RankN <- MC_RankN
   RankE <- MC_RankE
